@@ -16,6 +16,9 @@
 //   message must still be delivered by the logger thread.  Header: quotas=<per-producer message counts>.
 //   In drain mode a non-zero <stall ms> is the sink's time PER MESSAGE instead of 100 ms (a long backlog: <per> x <stall ms>
 //   of sink work is queued when resetOwnThread() is called; every message must still reach the sink, in order).
+//   "drainlast": as drain, but producer 1 logs once the sink has ENTERED the last queued message (+ a quarter of the sink's time per
+//   message): the stop is under way and the logger thread is inside the pipeline for the last message - the late message must
+//   still be handed to the logger thread (never run by the caller next to it) and be delivered after it.
 // Texts: every 9th message carries a leading / embedded / trailing U+0000.  line = index * 64 + producer.
 // Time formats ("tfmt" = 1): the pipeline on the worker additionally holds PatternFormatter("%{time process}~%{time boot}~%{time hh:mm:ss.zzz}")
 //   in front of the sink, so that the TEXT the sink receives carries the message's time stamps as the library renders them.  bare
@@ -59,6 +62,7 @@ static std::function<void()> g_relog;
 static std::atomic<int> g_max_nesting{0};
 thread_local int tl_depth = 0;
 static std::atomic<bool> g_stalled{false};
+static std::atomic<int> g_sink_entered{0};
 static std::atomic<long> g_maxcall_us{0};
 thread_local int tl_prod = -1;
 thread_local int tl_idx = -1;
@@ -139,6 +143,7 @@ struct RecSink : Sink {
         if (sscanf(t.toUtf8().constData(), "%d %d", &p, &i) != 2) { p = m.line() % 64; i = m.line() / 64; }   // text lost: identify by line
         if (++tl_depth > g_max_nesting.load()) g_max_nesting = tl_depth;
         record('D', p, i);
+        g_sink_entered++;
         if (g_stall_ms > 0 && !g_stalled.exchange(true)) usleep(g_stall_ms * 1000);
         if (g_slow_ms > 0) usleep(g_slow_ms * 1000);
         {
@@ -174,7 +179,7 @@ int main(int argc, char **argv)
     while (std::getline(std::cin, line)) {
         std::istringstream is(line);
         std::string mode; int n = 2, per = 10; unsigned seed = 1;
-        g_stall_ms = 0; g_tfmt = 0; g_stalled = false; g_maxcall_us = 0; g_slow_ms = 0; g_all_posted = false; g_relogged = false; g_relog = nullptr; g_max_nesting = 0;
+        g_stall_ms = 0; g_tfmt = 0; g_stalled = false; g_maxcall_us = 0; g_slow_ms = 0; g_all_posted = false; g_relogged = false; g_relog = nullptr; g_max_nesting = 0; g_sink_entered = 0;
         is >> mode >> n >> per >> seed >> g_perturb >> g_sinkdelay >> g_stall_ms >> g_tfmt;
         if (mode.empty()) continue;
         g_events.assign((size_t)n * per * 6 + 64, Ev { '?', 0, 0 });
@@ -218,6 +223,8 @@ int main(int argc, char **argv)
             else if (i % 9 == 6) text.append(QChar(0));
         };
         std::vector<std::thread> ths;
+        const bool drainlast = mode == "drainlast";
+        if (drainlast) mode = "drain";
         if (mode == "bare" || mode == "drain") {
             OwnThreadHandler<SimplePipeline> h;
             build(h);
@@ -252,7 +259,10 @@ int main(int argc, char **argv)
                 tl_prod = -1;
                 std::thread stopper([&] { h.resetOwnThread(); });
                 std::thread late([&] {
-                    usleep(200 * 1000);
+                    if (drainlast) {
+                        for (int k = 0; k < 120000 && g_sink_entered.load() < per; k++) usleep(500);
+                        usleep(g_slow_ms * 1000 / 4);
+                    } else usleep(200 * 1000);
                     std::string tw; tl_prod = 1; tl_idx = 0;
                     auto c0 = std::chrono::steady_clock::now();
                     bare_send(1, 0, tw);
@@ -333,7 +343,7 @@ int main(int argc, char **argv)
         }
         long cnt = std::min<long>(g_ticket.load(), (long)g_events.size());
         std::ostringstream o;
-        o << "RUN " << mode << " " << n << " " << per << " " << seed << " " << g_perturb << " " << g_sinkdelay << " events=" << g_ticket.load()
+        o << "RUN " << (drainlast ? "drainlast" : mode.c_str()) << " " << n << " " << per << " " << seed << " " << g_perturb << " " << g_sinkdelay << " events=" << g_ticket.load()
           << (g_ticket.load() > (long)g_events.size() ? " OVERFLOW" : "") << " stall_ms=" << g_stall_ms << " maxcall_us=" << g_maxcall_us.load() << " max_nesting=" << g_max_nesting.load() << " tfmt=" << g_tfmt << " tcal=" << tcal << " quotas=";
         for (size_t k = 0; k < quotas.size(); k++) o << (k ? "," : "") << quotas[k];
         o << "\nEV ";
